@@ -44,7 +44,7 @@ def run(tier, seed):
     chk.add_spec_run(cfg, r_mc, "PAGE=1 Data={0,1} " + ("64 latch values x 3 ports" if quick else "256 latch values x 5 ports"))
     runs = sum(1 for l in open(trace) if '"ev":"reset"' in l)
     chk.cov["traces_validated_against_impl"] = runs
-    chk.cov["rule"] = ("random histories of paging/non-paging OUTs and reads/writes at random and hot addresses, "
+    chk.cov["rule"] = ("random histories of paging/non-paging OUTs, reads/writes at random and hot addresses and files that the machine rejects, "
                        "both machines, marker and embedded ROMs; plus every latch history v1;v2 "
                        f"(v1 in 0..255, v2 in {'0..255' if exh == 2 else '16 values'}) with one probe per window")
     with open(trace) as f:
